@@ -97,6 +97,17 @@ def inputs(tier):
     out.append(("case_clash_roots", {"__roots__": {"item": [{"a": 1, "b": 2, "c": 3}], "Item": [{"a": 1, "b": 2, "c": 3, "d": 4}]}}, None))
     out.append(("case_clash_roots3", {"__roots__": {"user": [{"a": 1, "b": 2, "c": 3}], "User": [{"a": 1, "b": 2, "c": 3, "d": 4}],
                                                      "USER": [{"a": 1, "b": 2, "c": 3, "e": 4}], "admin_user": [{"a": 1, "b": 2, "c": 3, "d": 4, "e": 5}]}}, None))
+    # a model shared by several roots, one of which is itself a merge product registered after the shared model, next to an
+    # unrelated root that is placed earlier (nested layout: the shared class is inserted before whichever of its roots is placed)
+    out.append(("shared_by_merged_root", {"__roots__": {
+        "Weather": [{"station": "north", "temperature": 21.5, "humidity": 40}],
+        "Order": [{"order_id": 1, "customer": "first", "item": {"sku": 1, "qty": 2}}],
+        "InvoiceV1": [{"invoice_id": 1, "title": "t", "paid": True, "item": {"sku": 1, "qty": 2}}],
+        "InvoiceV2": [{"invoice_id": 2, "title": "u", "paid": False, "item": {"sku": 5, "qty": 1}}]}}, None))
+    out.append(("shared_by_merged_root2", {"__roots__": {
+        "A0": [{"z": 1, "y": "s"}], "A1": [{"w": [1], "v": None}],
+        "B1": [{"k1x": 1, "t": "t", "p": True, "it": {"s": 1, "q": 2}}], "B2": [{"k1x": 2, "t": "u", "p": False, "it": {"s": 5, "q": 1}}],
+        "C": [{"o": 1, "c": "f", "it": {"s": 1, "q": 2}}], "D": [{"dd": 1, "it": {"s": 3, "q": 4}}]}}, None))
     out.append(("names", [{"author": {"n": 1, "x": 2}, "editor": {"n": 2, "x": 3}, "owner_user": {"n": 3, "x": 1}, "users": [{"n": 1, "x": 9}]}], None))
     return out
 
